@@ -179,6 +179,10 @@ NEAR_MISS = [
     "na = Integer(0)\nnm = Integer(0)\nfor i in range(2):\n    nm = na\n    na = x0", "nm = Integer(0)\nfor i in range(2):\n    nm = nm + x0",
     "nm = 1\nfor i in range(3):\n    nm = [nm]", "na = 1\nnm = 'a'\nfor i in range(2):\n    nm = na\n    na = 'b'",
     "nm: list[int] = []\nfor i in range(2):\n    nm: list[str] = ['a']", "nm = Integer(1)\nfor i in range(2):\n    for j in range(2):\n        nm = nm * x0",
+    # ... a variable first bound inside the outer loop's body and changed by the inner loop
+    "for i in range(2):\n    nm = Integer(0)\n    for j in range(2):\n        nw = nm\n        nm = nm + x0",
+    "for i in range(2):\n    na = Integer(1)\n    nm = Integer(0)\n    for j in range(3):\n        nm = na\n        na = x0",
+    "for i in range(1):\n    for j in range(1):\n        nm = 1\n        for k2 in range(2):\n            nw = [nm]\n            nm = 'a'",
 ]
 EXPR_ZOO = [
     "x0", "1", "1.5", "1j", "'s'", "b's'", "None", "True", "False", "...", "-x0", "+x0", "-1", "- 1", "-'s'", "+'s'", "not x0", "not True", "~x0", "~1",
@@ -269,7 +273,19 @@ def generate(rng, mode=None):
     # also in otherwise clean programs, so that such a flaw is the only one the checker has to notice
     body, ints, bools, lists = base_program(rng, wrong=(mode == "typed" or rng.random() < 0.25))
     helpers = [h for h in HELPERS if rng.random() < 0.3] + list(base_program.helpers)
-    if mode == "nearmiss" and rng.random() < 0.25:
+    if mode == "nearmiss" and rng.random() < 0.12:
+        # ... or a helper whose *last* return is of the declared class while an earlier one (inside a loop, before dead code,
+        # in a nested loop) returns a value of another class, and a call
+        A, B = rng.choice([("Integer", "SecretInteger"), ("PublicInteger", "SecretInteger"), ("int", "Integer"), ("SecretInteger", "Integer")])
+        hbody = rng.choice(["    for i in range(1):\n        return q\n    return p\n", "    return q\n    return p\n",
+                            "    for i in range(2):\n        for j in range(1):\n            return q\n    return p\n",
+                            "    t = p\n    for i in range(3):\n        t = q\n        return t\n    return p\n"])
+        helpers.append(f"def hm(p: {A}, q: {B}) -> {A}:\n{hbody}")
+        mk = {"int": "1", "Integer": "Integer(1)", "PublicInteger": "Integer(2) + Integer(0)"}
+        sec = next((x for x in ints if x.startswith("x")), "x0")
+        body.insert(len(body) - 1, f"nm = hm({mk.get(A, sec)}, {mk.get(B, sec)})")
+        body.insert(len(body) - 1, "nu = [nm]")
+    elif mode == "nearmiss" and rng.random() < 0.25:
         # ... or one helper that does not return what it declares (no return statement on some path, a bare return), and a call
         cls = rng.choice(["SecretInteger", "PublicInteger", "Integer", "int"])
         hbody = rng.choice(["    t = p\n", "    t = p\n    return\n", "    for i in range(2):\n        t = p\n", "    t = [p]\n", "    return None\n"])
